@@ -437,7 +437,8 @@ impl<T: BitWrite> PackedWrite for T {
             self.write_bits_with_offset(&bytes[..], offset_bits)?;
             Ok(())
         } else {
-            let offset = value.leading_zeros() as u64 / 8;
+            // at least one octet, also for the value zero (11.3.6)
+            let offset = (value.leading_zeros() as u64 / 8).min(7);
             let len = std::mem::size_of::<u64>() as u64 - offset;
             let bytes = value.to_be_bytes();
             self.write_length_determinant(None, None, len)?;
